@@ -12,7 +12,7 @@
 (*              = "rewind-on-stop"  design mutant: the counter is rewound    *)
 (*                                  when the pass ends instead               *)
 (***************************************************************************)
-EXTENDS GeneratorShape      \* IterMismatch: the same protocol as a function of a recorded call sequence
+EXTENDS Naturals, Sequences      \* (the same protocol as a function of a recorded call sequence: IterMismatch in GeneratorShape.tla)
 CONSTANTS Limit, MaxLen, IterDesign
 VARIABLES cur, pass, calls, bad
 ivars == <<cur, pass, calls, bad>>
